@@ -492,6 +492,7 @@ def ladder_cases(dl):
 # complete tag/expression body in default delimiters (translated per config)
 CORNER_EXPRS = [
     "f(a=1, a=2)", "x|f(a=1, a=2)", "x is t(a=1, a=2)", "f(__debug__=1)", "f(class=1)",
+    "f(\ufb01=1, fi=2)", "f(\u00b5=1, \u03bc=2)", "10**5000", "x[10**5000]", "2**20000 + x", "(10**5000)|string", "-(10**5000)",
     "f(None=1)", "f(true=1)", "f(if=1)", "f(match=1)", "f(**a, **b)", "f(*a, *b)", "f(*a, b=1)",
     "f(**a, b=1)", "f(a=1, b)", "x[:, :]", "x[1:2, 3]", "x[::]", "x[1,]", "x[]", "x[1:2:3:4]",
     "x.1", "x.1.2", "x.1e5", "x.0x1", "x.class", "x.__debug__", "__debug__", "None.x", "true.x",
@@ -549,6 +550,7 @@ CORNER_TAGS = [
     "filter x y", "filter f(a=1, a=2)", "print", "print 1,", "print 1, 2", "print 1 2",
     # a name that occurs only in the arguments of a block-level filter / call
     "set q|d(zz)", "set q|replace(zz, yy)|d(ww)", "set q|d(q)", "filter d(zz)", "filter replace(zz, yy)",
+    "call f(caller=1)", "call(a) f(caller=a)", "call f(**{'caller': 1})", "set q = 10**5000", "if 10**5000",
     "call f(zz)", "call(a) f(zz, a)", "call(a=zz) f()", "macro m(a=zz)", "macro m(a, b=a)",
     "for q in zz if yy", "for q in q", "with a=zz, b=a", "autoescape zz",
     # statements that may produce no code, before / after / without extends
